@@ -45,6 +45,11 @@ CHECKS = {
          "Results, observable fingerprints and database dumps of the two replicas are compared on every edge and pair state.",
          "The never-restarted replica is forked by creating a fresh database in-process and copying rows (connection state of a never-reopened database); call-level side effects on the connection are not carried across forks.",
          "3/C11"),
+ "C12": ("E4 crashx", "fault_enumeration",
+         "exhaustive crash-point enumeration on the real SQLite write path: for every API call of five scripted histories (member: application / proposal / commit / losing commit / Add commit / own message / self_update / merge_pending_commit; rollback: losing commit then MIP-03 winner with snapshot + restore; two admins merging their own Add / rename commits; joiner: process + accept welcome) and every storage tick k of that call (every with_connection entry and every statement inside the snapshot / restore / relay-replacement transactions), a child process replays the earlier calls, runs the call and dies by abort() at tick k; the parent reopens the file. Thorough: additionally every second crash point k2 while the interrupted call is offered again (all pairs (k, k2)).",
+         "Oracles per crash point: the file opens; every group loads; the relay set is the old or the new one; all crash points inside one storage transaction leave identical table dumps; offering the interrupted call again followed by all later calls ends in the normalised state of the uninterrupted in-process run. A difference that equals the one a clean restart at the call boundary produces is reported under its own class.",
+         "Process death is abort() in the process that owns the connection (no power-loss / torn-page model: SQLite's journal is trusted); ticks are at statement granularity of MDK's storage layer, OpenMLS provider writes are reached through with_connection. Histories are scripted, not searched; create_group is not among the interrupted calls.",
+         "3/C12"),
  "C04": ("E1 lab + adversary toolkit", "model_checking",
          "exhaustive product enumeration on real clients: forged rumor fields x sender role x receiver base state, plus every captured ciphertext re-wrapped (same / foreign h tag, both orders); each case is one delivery to a forked receiver state, judged by a before/after comparison of every stored message",
          "The complete finite product of the stated field domains is delivered to every base state; every stored message is re-hashed and compared with the authenticated sender.",
